@@ -122,6 +122,10 @@ def has_cycle(g, nodes):
     return any(color.get(x, 0) == 0 and visit(x) for x in sorted(nodes))
 
 
+def spelled(r):
+    return bool(r.get("raw")) or any(p.get("raw") for p in r["pkgs"])
+
+
 def faults_of(r):
     return r.get("faults") or {}
 
@@ -276,6 +280,112 @@ def brief(r):
             "module_loading_events": r["loading"] if len(r["loading"]) <= 40 else "%d labels" % len(r["loading"])}
 
 
+# strings of the key cases are written as Coq string literals (much cheaper to read than lists of numerals)
+KEY_HDR = ("From Coq Require Import String Ascii.\nFrom Dawn Require Import Base.Bytes Label.Model Loader.KeyModel.\n"
+           "Definition s2b (s : string) : list N := List.map N_of_ascii (list_ascii_of_string s).\n")
+
+
+def check_keys(ctx, path):
+    """Registry keys (harness zz_verif_c06_key_test.go): direct oracles on the implementation -- a text written for a
+    file registers that file under the module label of that file; one file, one key; one key, one file -- and the
+    comparison of every (loading module, label text) pair with Loader/KeyModel.v.  Returns the number of oracle
+    failures."""
+    rows = [json.loads(l) for l in open(path) if l.strip()]
+    fails = []
+    misnamed = []
+
+    def inp(r):
+        return {"loading module": "module:%s%s:%s" % (r["loader_project"], r["loader_package"], r["loader_name"]),
+                "requirements of its project": r["loader_requirements"], "load statement": "load(%s, ...)" % json.dumps(r["raw"]),
+                "registered under": r.get("key", r["outcome"]),
+                "file executed": ({"project": r.get("file_project", ""), "path": r["file_rel"]} if r["has_file"] else None)}
+
+    by_file, by_key = {}, {}
+    for r in rows:
+        if r["outcome"] == "panic":
+            fails.append(("loadModule panicked: %s" % r.get("detail", ""), [inp(r)]))
+            continue
+        if r.get("want_key"):
+            # the generator of the texts and dawn must agree on the file a text names (the key it gets is dawn's business)
+            got = (r["outcome"], r["has_file"], r.get("file_project", ""), r.get("file_rel"))
+            want = ("key", True, r.get("want_project", ""), r["want_rel"])
+            if got != want:
+                x = inp(r)
+                x["the text was written for"] = {"project": want[2], "path": want[3]}
+                misnamed.append(x)
+        # (a key whose name is "." or ".." stands for a directory, which filepath.Join folds into the path: no module file)
+        if r["outcome"] == "key" and r["has_file"] and r["key"].rsplit(":", 1)[-1] not in (".", ".."):
+            by_file.setdefault((r.get("file_project", ""), r["file_rel"]), {}).setdefault(r["key"], r)
+            by_key.setdefault(r["key"], {}).setdefault((r.get("file_project", ""), r["file_rel"]), r)
+    for f, ks in sorted(by_file.items()):
+        if len(ks) > 1:
+            fails.append(("one module file is registered under %d registry keys (%s), so it can be executed once per key"
+                          % (len(ks), ", ".join(sorted(ks))), [inp(x) for _, x in sorted(ks.items())][:4]))
+    for k, fs in sorted(by_key.items()):
+        if len(fs) > 1:
+            fails.append(("one registry key (%s) stands for %d different files" % (k, len(fs)),
+                          [inp(x) for _, x in sorted(fs.items())][:4]))
+    if misnamed:
+        ctx.violation("%d label texts of the spelling family do not reach the file they were written for: the ground truth of "
+                      "the one-file-one-key oracle is in doubt" % len(misnamed),
+                      {"theorem_or_correspondence": "C06 key harness, texts of c06Spellings", "cases": misnamed[:5]}, found_input=False)
+    for what, inputs in sorted(fails, key=lambda x: (len(x[1]), len(x[0])))[:3]:
+        ctx.violation("implementation violates C06: %s" % what,
+                      {"inputs": inputs,
+                       "how": "harness/overlay/root/zz_verif_c06_key_test.go: on a loaded project (requirements lib, lib2 -> "
+                              "example.com/lib, other -> example.com/other, all in the download cache) call "
+                              "(&module{label: <loading module>, requirements: ...}).loadModule(proj, <text>) and read "
+                              "module.dependencies[0] (the key) and proj.modules[key].path (the file)"})
+
+    # model
+    def S(x):
+        return '(s2b "%s")' % x.replace('"', '""') if x else "(@nil N)"
+
+    items = []
+    loaders = {}
+    defs = []
+    for r in rows:
+        lk = (r["loader_project"], r["loader_package"], r["loader_name"], json.dumps(r["loader_requirements"], sort_keys=True))
+        if lk not in loaders:
+            loaders[lk] = n = len(loaders)
+            reqs = cq_list(["(%s, %s)" % (S(a), S(p)) for a, p in sorted(r["loader_requirements"].items())], "(str * str)")
+            defs.append("Definition rq%d : list (str * str) := %s.\nDefinition ld%d : label := (mkLabel module_kind %s %s %s).\n"
+                        % (n, reqs, n, S(r["loader_project"]), S(r["loader_package"]), S(r["loader_name"])))
+        n = loaders[lk]
+        if r["outcome"] == "err":
+            obs = "OErr"
+        elif r["outcome"] == "panic":
+            obs = "OPanic"
+        else:
+            fl = "(Some (%s, %s))" % (S(r.get("file_project", "")), S(r["file_rel"])) if r["has_file"] else "(@None (str * str))"
+            obs = "(OKey %s %s)" % (S(r["key"]), fl)
+        items.append("(%s, mkK rq%d ld%d %s %s)" % (cq_N(r["id"]), n, n, S(r["raw"]), obs))
+    nsh = 8
+    exprs = ["key_mismatches [\n" + ";\n".join(items[i::nsh]) + "]" for i in range(nsh)]
+    okc, res, logs = ctx.coq_eval(KEY_HDR + "".join(defs), exprs)
+    dist = {}
+    for r in rows:
+        k = "%s:%s" % (r["family"], r["outcome"] if r["outcome"] != "key" else ("key+file" if r["has_file"] else "key, no file"))
+        dist[k] = dist.get(k, 0) + 1
+    ctx.coverage["correspondence"]["registry_key_cases"] = len(rows)
+    ctx.coverage["correspondence"]["registry_key_distribution"] = dist
+    ctx.coverage["correspondence"]["registry_key_distinct_files"] = len(by_file)
+    if not okc:
+        ctx.violation("model evaluation failed (registry keys)", {"theorem_or_correspondence": "Loader/KeyModel.v key_mismatches",
+                                                                   "log": logs[:2]}, found_input=False)
+        return len(fails)
+    badids = sorted(i for rr in res for i in rr)
+    ctx.coverage["correspondence"]["registry_key_mismatches"] = len(badids)
+    if badids and not fails:
+        byid = {r["id"]: r for r in rows}
+        ctx.violation("the registry key or file of %d of %d load statements differs from Loader/KeyModel.v (module_key / "
+                      "module_file)" % (len(badids), len(rows)),
+                      {"theorem_or_correspondence": "Loader/KeyModel.v check_kcase", "cases": [inp(byid[i]) for i in badids[:6]]},
+                      found_input=False)
+    ctx.log("registry keys: %d cases, %d files, %d oracle failures, %d model mismatches" % (len(rows), len(by_file), len(fails), len(badids)))
+    return len(fails)
+
+
 def run(ctx):
     ok, rep = ctx.coq_props("Loader/Props_C06.v")
     proof_broken = not ok
@@ -284,11 +394,13 @@ def run(ctx):
     nrand = 200 if ctx.quick() else 1500
     reps = 6 if ctx.quick() else 8
     sizes = SIZES_QUICK if ctx.quick() else SIZES_THOROUGH
-    env = {"VERIF_OUT": out, "VERIF_SEED": str(ctx.seed), "VERIF_NRAND": str(nrand), "VERIF_REPS": str(reps),
+    keyout = os.path.join(ctx.tmp, "c06key.jsonl")
+    env = {"VERIF_OUT_KEY": keyout, "VERIF_NKEY": "600" if ctx.quick() else "12000", "VERIF_OUT": out, "VERIF_SEED": str(ctx.seed), "VERIF_NRAND": str(nrand), "VERIF_REPS": str(reps),
            "VERIF_WATCHDOG_MS": "8000", "VERIF_SIZES": ",".join(map(str, sizes)), "VERIF_WIDE_MAX": "70" if ctx.quick() else "260"}
     rc, o = ctx.go_overlay_test("", {f: os.path.join(HARNESS, "overlay/root", f)
-                                     for f in ("zz_verif_c06_load_test.go", "zz_verif_c06_spell_test.go")},
-                                "^TestVerifC06$", env)
+                                     for f in ("zz_verif_c06_load_test.go", "zz_verif_c06_spell_test.go",
+                                               "zz_verif_c06_key_test.go")},
+                                "^TestVerifC06(Key)?$", env)
     if rc != 0:
         ctx.log(o[-3000:])
         ctx.violation("C06 harness failed to build or run against /repo (exit %d)" % rc,
@@ -296,11 +408,13 @@ def run(ctx):
         return
     runs = [json.loads(l) for l in open(out) if l.strip()]
     ctx.log("harness done: %d runs" % len(runs))
+    key_fail = check_keys(ctx, keyout)
 
     # ---- direct oracles on the implementation
     dist = {}
-    oracle_fail = 0
+    oracle_fail = key_fail
     by_scenario = {}
+    failures = []
     for r in runs:
         g, roots, badset = scenario_graph(r)
         reach = reachable(g, roots)
@@ -333,7 +447,9 @@ def run(ctx):
                 elif sorted(r["targets"]) != et or sorted(r["flags"]) != ef:
                     bad.append("acyclic load graph loaded with targets %s flags %s, expected %s %s"
                                % (r["targets"], r["flags"], et, ef))
-                elif set(r["loading"]) != reach:
+                elif not spelled(r) and set(r["loading"]) != reach:
+                    # (plain label texts only: which label a ModuleLoading event carries is not part of the property;
+                    #  the scenarios of the spelling family are judged by the files that ran, next)
                     bad.append("executed set %s differs from the reachable set %s" % (sorted(r["loading"]), sorted(reach)))
                 elif {mod_label(f, faults_of(r), r) for f in ran} != reach:
                     bad.append("the files that ran %s are not the files reachable from the packages %s"
@@ -366,10 +482,17 @@ def run(ctx):
             rp = brief(r)
             rp["oracle"] = bad
             rp["how"] = ("write the project (harness/overlay/root/zz_verif_c06_load_test.go: c06Write; mods = the load statements "
-                         "of //:<name>.dawn, pkgs = those of <dir>/BUILD.dawn, faults as in c06Fault) and call dawn.Load; "
+                         "of <dirs[name]>/<name>.dawn, by the file they name: a module name or @<dir> = <dir>/BUILD.dawn; "
+                         "pkgs = those of <dir>/BUILD.dawn; raw = the label text each statement is written with; proj/reqs = "
+                         "files of required projects, placed in $HOME/.dawn/modules/cache; faults as in c06Fault; every file "
+                         "starts with print(\"x:<file>\")) and call dawn.Load; "
                          "rendezvous = hold every package file at the start of its execution until all have started")
             rp["hook_log_tail"] = r["log"][-40:]
-            ctx.violation("implementation violates C06: %s" % bad[0], rp)
+            failures.append((len(r["mods"]) + len(r["pkgs"]) + sum(len(p["loads"] or []) for p in r["pkgs"]),
+                             "implementation violates C06: %s" % bad[0], rp))
+    # the smallest failing projects first (only the first ten are written out)
+    for _, what, rp in sorted(failures, key=lambda x: x[0]):
+        ctx.violation(what, rp)
 
     # ---- the model replays every hook log
     cases = []
